@@ -72,3 +72,37 @@ def runChoices (sys : LSys σ lbl) : σ → List Nat → Option (List lbl × σ)
 def isDeadlock (sys : LSys σ lbl) (s : σ) : Bool := (sys.next s).isEmpty
 
 end Unifex.Core
+
+namespace Unifex.Core
+variable {σ lbl : Type}
+
+theorem runChoices_reach (sys : LSys σ lbl) : ∀ (cs : List Nat) (s : σ) (ls : List lbl) (t : σ),
+    Reach sys s → runChoices sys s cs = some (ls, t) → Reach sys t
+  | [], s, ls, t, hr, h => by
+    simp [runChoices] at h; exact h.2 ▸ hr
+  | c :: cs, s, ls, t, hr, h => by
+    unfold runChoices at h
+    cases hc : (sys.next s)[c]? with
+    | none => simp [hc] at h
+    | some p =>
+      obtain ⟨l, s'⟩ := p
+      simp only [hc] at h
+      cases hr' : runChoices sys s' cs with
+      | none => simp [hr'] at h
+      | some q =>
+        obtain ⟨ls', t'⟩ := q
+        simp only [hr', Option.some.injEq, Prod.mk.injEq] at h
+        have hm : (l, s') ∈ sys.next s := List.mem_of_getElem? hc
+        exact h.2 ▸ runChoices_reach sys cs s' ls' t' (Reach.step hr hm) hr'
+
+/-- Search (untrusted, for finding non-vacuity witnesses offline): breadth-first over choice lists. -/
+def findChoices (sys : LSys σ lbl) (good : σ → Bool) : Nat → List (List Nat × σ) → Option (List Nat)
+  | 0, _ => none
+  | n+1, frontier =>
+    match frontier.find? (fun p => good p.2) with
+    | some p => some p.1.reverse
+    | none =>
+      let nxt := frontier.flatMap (fun p => ((sys.next p.2).zipIdx).map (fun (q, i) => (i :: p.1, q.2)))
+      findChoices sys good n nxt
+
+end Unifex.Core
